@@ -21,6 +21,21 @@ type Layout struct {
 	Lower bool // lower-case sequence letters
 	CRLF  bool
 	Desc  bool // add a description after the ID
+	Sep   string // whitespace between ID and description ("" = one space)
+	Lead  string // whitespace between '>' and the ID (usually none)
+}
+
+// Header is the header text (without '>') of record i under this layout.
+func (l Layout) Header(i int, name string) string {
+	h := l.Lead + name
+	if l.Desc {
+		sep := l.Sep
+		if sep == "" {
+			sep = " "
+		}
+		h += sep + fmt.Sprintf("sample %d", i)
+	}
+	return h
 }
 
 func genLayout(r *Rand) Layout {
@@ -31,6 +46,12 @@ func genLayout(r *Rand) Layout {
 	l.Lower = r.P(0.2)
 	l.CRLF = r.P(0.2)
 	l.Desc = r.P(0.2)
+	if l.Desc && r.P(0.4) {
+		l.Sep = r.Pick("\t", "  ", " \t", "\t\t")
+	}
+	if r.P(0.03) {
+		l.Lead = r.Pick(" ", "\t")
+	}
 	return l
 }
 
@@ -41,11 +62,7 @@ func (a Aln) FASTA(l Layout) string {
 		nl = "\r\n"
 	}
 	for i, n := range a.Names {
-		sb.WriteString(">" + n)
-		if l.Desc {
-			fmt.Fprintf(&sb, " sample %d", i)
-		}
-		sb.WriteString(nl)
+		sb.WriteString(">" + l.Header(i, n) + nl)
 		s := a.Seqs[i]
 		if l.Lower {
 			s = strings.ToLower(s)
@@ -240,6 +257,7 @@ type samSpec struct {
 	Clip       float64
 	InsDisjoint bool   // an insertion anchor is covered by exactly one record
 	EdgeIns    float64 // probability of an insertion as the first / last aligned operation of a record
+	DelFlip    float64 // probability that a record other than the first disagrees on deleted-vs-aligned at a position
 }
 
 // genSam builds a SAM case: per query a plan over reference positions (base / deleted / skipped,
@@ -392,7 +410,17 @@ func genSam(r *Rand, sp samSpec) *SamCase {
 				seq = append(seq, x...)
 			}
 			for p := a; p <= b; p++ {
-				switch state[p] {
+				st := state[p]
+				if sp.DelFlip > 0 && r.P(sp.DelFlip) {
+					// this record alone sees a deletion where the others align a base, or the other way round
+					switch st {
+					case 'B':
+						st = 'D'
+					case 'D', 'N':
+						st = 'B'
+					}
+				}
+				switch st {
 				case 'B':
 					base := qb[p]
 					if sp.Conflict > 0 && k > 0 && r.P(sp.Conflict) {
